@@ -279,13 +279,55 @@ def PARSE_LEN():
     return int(os.environ.get('PHQV_PARSE_LEN') or (6 if core.tier() == 'thorough' else 4))
 
 
-def family_parse(inv, tb, N):
+_derived_len = {}
+
+
+def code_derived_lengths(work):
+    """byte-string lengths taken from the code: ParseEnumeration / ParseNumber and the PhQ helpers they call are compiled on
+    their own; every integer constant 5 <= c <= 64 among their operands (a buffer size, a length limit, a small-string
+    threshold) and every `alloca [c x i8]` adds the lengths c-1, c, c+1.  The unchanged tree has none."""
+    if 'v' in _derived_len:
+        return _derived_len['v']
+    src = os.path.join(work, 'c20_lengths.cpp')
+    ll = os.path.join(work, 'c20_lengths.ll')
+    open(src, 'w').write('#include "PhQ/Base.hpp"\n#include "PhQ/UnitSystem.hpp"\n'
+                         'extern "C" long w(const char* p, long n) { auto r = PhQ::ParseEnumeration<PhQ::UnitSystem>(std::string_view(p, n)); '
+                         'auto d = PhQ::ParseNumber<double>(std::string(p, n)); auto f = PhQ::ParseNumber<float>(std::string(p, n)); '
+                         'auto l = PhQ::ParseNumber<long double>(std::string(p, n)); return r.has_value() + d.has_value() + f.has_value() + l.has_value(); }\n')
+    consts = set()
+    try:
+        rc, out, err = H.run_cmd(['clang++-14'] + H.CLANG_FLAGS + ['-fno-inline', '-I', H.include_dir(work), src, '-o', ll])
+        if rc == 0:
+            cur = False
+            for line in open(ll):
+                if line.startswith('define '):
+                    m = re.search(r'@([\w.$]+)\(', line)
+                    cur = bool(m and m.group(1).startswith('_ZN3PhQ'))
+                elif line.startswith('}'):
+                    cur = False
+                elif cur:
+                    m = re.search(r'alloca \[(\d+) x i8\]', line)
+                    if m:
+                        consts.add(int(m.group(1)))
+                    if re.match(r'\s*(call|invoke|br|ret|store|load|getelementptr|%\S+ = (getelementptr|load|call|invoke|phi|bitcast|alloca|insertvalue|extractvalue))\b', line):
+                        continue
+                    for c in re.findall(r'\bi(?:64|32) (\d+)\b', line) + re.findall(r', (\d+)\s*$', line):
+                        consts.add(int(c))
+    except Exception:
+        pass
+    consts = sorted(c for c in consts if 5 <= c <= 64)
+    lens = sorted({n for c in consts for n in (c - 1, c, c + 1)})[:9]
+    _derived_len['v'] = (lens, consts)
+    return _derived_len['v']
+
+
+def family_parse(inv, tb, N, extra=()):
     ws = []
     for q, e in sorted(tb.items()):
         E = 'PhQ::' + q
         tag = sanitize(q)
         vals = sorted(e['enumerators'].values())
-        for L in range(N + 1):
+        for L in list(range(N + 1)) + [x for x in extra if x > N]:
             body = ('char buf[%d]; %s const std::optional<%s> r = PhQ::ParseEnumeration<%s>(std::string_view(buf, %d)); iout[0] = r.has_value(); iout[1] = r.has_value() ? (long)*r : -1;' % (
                 max(1, L), ' '.join('buf[%d] = (char)iin[%d];' % (i, i) for i in range(L)), E, E, L))
             ws.append((H.Wrapper('w_parse%d_%s' % (L, tag), 'f64', 0, 'f64', 0, body, n_iout=2, n_iin=max(1, L), flatten=False, meta={'max_paths': 20000, 'enumvals': vals, 'parse': True}),
@@ -305,12 +347,12 @@ def family_number():
     return ws
 
 
-def family_number_bytes(N):
+def family_number_bytes(N, extra=()):
     """ParseNumber<T> on every byte string of length 0..N (symbolic bytes; std::sto* by contract)"""
     ws = []
     for T in C.TYPES:
         ct = CT[T]
-        for L in range(N + 1):
+        for L in list(range(N + 1)) + [x for x in extra if x > N]:
             body = ('char buf[%d]; %s const std::string s(buf, %dUL); const std::optional<%s> r = PhQ::ParseNumber<%s>(s); iout[0] = r.has_value(); out[0] = r.has_value() ? *r : 0;' % (
                 max(1, L), ' '.join('buf[%d] = (char)iin[%d];' % (i, i) for i in range(L)), L, ct, ct))
             ws.append((H.Wrapper('w_parsenumber%d_%s' % (L, T), T, 0, T, 1, body, n_iout=1, n_iin=max(1, L), flatten=False, meta={'numberbytes': T, 'strlen': L, 'max_paths': 20000}),
@@ -427,9 +469,10 @@ def main():
                 notes.append('%s: %s' % (name, d))
         add('pure', 'pure_' + T, [(w, '%s<%s>' % (d, CT[T])) for name, w, d in fam if w is not None], 32 if T == 'f64' else 16)
     add('tables', 'tables', family_tables(inv, tb), 8, ['-fno-inline'])
-    add('tables', 'parse', family_parse(inv, tb, PARSE_LEN()), 8, ['-fno-inline'])
+    dl = code_derived_lengths(work)
+    add('tables', 'parse', family_parse(inv, tb, PARSE_LEN(), dl[0]), 8, ['-fno-inline'])
     add('tables', 'number', family_number(), 1, ['-fno-inline'], includes=['PhQ/Base.hpp'])
-    add('tables', 'numberbytes', family_number_bytes(min(PARSE_LEN(), 4)), 3, ['-fno-inline'], includes=['PhQ/Base.hpp'])
+    add('tables', 'numberbytes', family_number_bytes(min(PARSE_LEN(), 4), dl[0]), 3, ['-fno-inline'], includes=['PhQ/Base.hpp'])
     add('tables', 'dims', family_dimensions(), 4, ['-fno-inline'], includes=['PhQ/Dimensions.hpp'])
     for T in C.TYPES:
         pw = family_print(inv, tb, T)
@@ -440,7 +483,7 @@ def main():
     results = engine.run_units(specs, worker, work)
     engine.collect(rep, results)
     rep.notes += notes
-    rep.bounds = {'numeric_types': list(C.TYPES) if thorough else ['double (thorough: all three)'], 'parse_string_length': PARSE_LEN(),
+    rep.bounds = {'numeric_types': list(C.TYPES) if thorough else ['double (thorough: all three)'], 'parse_string_length': PARSE_LEN(), 'parse_lengths_derived_from_code': {'constants': dl[1], 'lengths_added': dl[0]},
                   'paths_per_wrapper_max': 20000, 'enumerations': len(tb)}
     rep.assumptions = ['events are those the executor tracks (see the module docstring); floating-point operations have no undefined behaviour under IEEE 754',
                        'std::stof/stod/stold: documented contract only (value, std::invalid_argument or std::out_of_range)',
